@@ -20,7 +20,7 @@ def main():
         if cmd == 'selftest':
             from verifkit import selftest
             return selftest.main(args[1:])
-        from verifkit import props
+        from verifkit import props, props_decl
         pid = cmd.upper()
         tier = args[1] if len(args) > 1 else os.environ.get('VERIF_TIER', 'quick')
         if tier not in ('quick', 'thorough'):
